@@ -160,9 +160,13 @@ def oracle(ck, tier, deep):
             ck.violation(dict(sig, clause="unfold=mirror(fold)"), rep, "'unfold' is not the mirror-unfolding of 'fold'")
         # zero-weight pixels have no influence
         if case["weights"] is not None and (case["weights"] == 0).any():
-            im2 = np.where(case["weights"] == 0, 50 * rng.random((h, w)), im)
-            cn2 = call(case, im2, None)[1].cos()
-            if np.abs(cn2 - cn).max() > 1e-9 * scale:
+            im2 = np.where(case["weights"] == 0, [50 * rng.random((h, w)), np.nan, np.inf][it % 3], im)      # (masked bad pixels: NaN / inf too)
+            try:
+                cn2 = call(case, im2, None)[1].cos()
+            except Exception as e:
+                ck.violation(dict(sig, clause="zero-weight"), rep, f"with other values under the zero-weight pixels the call raised {type(e).__name__}: {e}")
+                continue
+            if not (np.abs(cn2 - cn).max() <= 1e-9 * scale):
                 ck.violation(dict(sig, clause="zero-weight"), rep, f"changing zero-weight pixels changed the distributions by {np.abs(cn2 - cn).max():.3g}")
         # radii without valid data are flagged, and zero in unregularised transforms
         valid = np.asarray(res["same"][1].valid, bool)
